@@ -173,7 +173,7 @@ def gen_oplist(r, acc, n_ops=None, dma_p=0.35):
             # pooling
             h, w, c = shape
             k = r.choice([(1, 1), (2, 2), (3, 3), (2, 1)])
-            st = r.choice([(1, 1), (2, 2), (1, 1)])
+            st = r.choice([(1, 1), (2, 2), (1, 1), (2, 1), (1, 2)])
             pad = [0, 0, 0, 0]
             if k == (3, 3) and r.random() < 0.5:
                 pad = [1, 1, 1, 1]
@@ -193,7 +193,7 @@ def gen_oplist(r, acc, n_ops=None, dma_p=0.35):
             dw = r.random() < 0.4
             k = r.choice([(1, 1), (3, 3), (1, 3), (2, 2)])
             dil = r.choice([(1, 1), (1, 1), (2, 2)])
-            st = r.choice([(1, 1), (1, 1), (2, 2)])
+            st = r.choice([(1, 1), (1, 1), (2, 2), (2, 1), (1, 2), (3, 1), (1, 3)])
             kw_e, kh_e = (k[0] - 1) * dil[0] + 1, (k[1] - 1) * dil[1] + 1
             pad = [0, 0, 0, 0]
             if r.random() < 0.5:
@@ -371,7 +371,7 @@ def gen_single_op(r, acc):
         return dict(acc=acc, ops=[op])
     k = r.choice([(1, 1), (1, 1), (3, 3), (3, 3), (1, 3), (3, 1), (2, 2), (5, 5), (7, 7), (1, 7), (8, 8), (4, 3)])
     dil = r.choice([(1, 1), (1, 1), (1, 1), (2, 2), (2, 1), (1, 2)]) if kind != "pool" else (1, 1)
-    st = r.choice([(1, 1), (1, 1), (2, 2), (1, 2), (2, 1), (3, 3)])
+    st = r.choice([(1, 1), (1, 1), (2, 2), (1, 2), (2, 1), (3, 3), (3, 1), (1, 3), (2, 3), (3, 2), (4, 1), (1, 4)])
     up = r.choice([None, None, None, "NEAREST", "TRANSPOSE"]) if kind in ("conv", "pool") else None
     if up:
         st = (1, 1)
